@@ -36,6 +36,8 @@ let rec int_of_nat = function O -> 0 | S n -> 1 + int_of_nat n
 
 let handle = function
   | ["constsok"] -> "ok\t" ^ (if filter_consts_ok fc then "1" else "0")
+  | ["chainok"] -> "ok\t" ^ (if chain_consts_ok fc then "1" else "0")
+  | ["uidok"] -> "ok\t" ^ (if uid_consts_ok fc then "1" else "0")
   (* elems chain -> ok (name/arg/tag)* ; tag u = unknown name *)
   | ["elems"; chain] ->
     "ok" ^ String.concat "" (List.map (fun ((n, a), b) ->
